@@ -88,6 +88,10 @@ func (p *PacketProcessor) ProcessPacketData(data []byte, _ *gopacket.CaptureInfo
 	if !validPacket(p.rcvDecoded) {
 		return
 	}
+	// the IPv4 decoder does not look at the version field
+	if p.rcvIP.Version != 4 {
+		return
+	}
 
 	p.results.Put(&ScanResult{
 		ScanType: p.scanType,
